@@ -177,6 +177,8 @@ def run_case(case, built=None, keep_obs=False):
             extra.add('C09')        # "a selected case already computed for another consumer is reused"
         for r in refs.values():
             extra.add('C01')        # the run has to yield the reference outcome (value or failure) under every schedule
+            if any(v > 0 for v in r.rec_iters.values()):
+                extra.add('C11')    # a recurrent subgraph re-iterates in this run: its consumers must get the final result
             if r.outcome[0] != 'value':
                 extra.add('C05')    # ... and a failure has to be reported, not waited for
                 for cse in r.outcome[1]:
